@@ -130,7 +130,11 @@ def cstep (s : Ctl) : Act → Option Ctl
     | _ => none
   | .coopEnq =>
     match s.coop with
-    | .wantEnq d => if s.lockHeld then none else some (enq s d)
+    | .wantEnq d =>
+      if s.lockHeld then none
+      -- repair C20-R1: under the lock, `if con.disconnected: return` — nothing is queued for a dead connection
+      else if s.disc then some { s with coop := .idle }
+      else some (enq s d)
     | _ => none
   | .senderBegin =>
     if s.sender = .idle ∧ ¬ s.lockHeld ∧ s.pending ≠ [] then some { s with lockHeld := true, sender := .flushing } else none
